@@ -19,7 +19,7 @@ KINDS = ["live", "live", "live", "trailing-slash", "dot-segment", "double-slash"
 
 @st.composite
 def mg_program(draw):
-    cfg = {"prefix": draw(st.sampled_from(["/", "/dav/", "/dav/", "/a/b/"])), "seed": []}
+    cfg = {"prefix": draw(st.sampled_from(["/", "/dav/", "/dav/", "/a/b/", "/us/", "/user/"])), "seed": []}  # the last two share characters / a whole segment with the paths behind them
     if draw(st.integers(0, 2)) == 0:
         cfg["seed"].append({"slot": "b1", "bare": True, "meta": "config", "kind": "calendar"})
     ics = [draw(gen.member_name(".ics", fancy=False)) for _ in range(2)] + [draw(gen.member_name(".ics", fancy=True)), draw(st.sampled_from(["semi;colon.ics", "a;b=c.ics", "x,y.ics", "plus+at@.ics", "q'(r)!.ics"]))]
